@@ -375,6 +375,68 @@ def run(ctx) -> None:
     ok = bool(fm) and bool(sp)
     ctx.ob("C14.R5-escape-agreement", w, ok, "one 'key=value' line per key; the reader splits on the first '='" if ok else
            "line format of the status file differs between writer and reader", construct="'%s=%s\\n' <-> split('=', 1)")
+    # the un-escaped value reaches the object as it is: the constructor the reader hands its dictionary to does not normalise
+    # (strip/lower/...) the value of an escaped key
+    NORMALISERS = ("strip", "lstrip", "rstrip", "lower", "upper", "title", "casefold")
+    ctor = d.func("Status.__init__")
+    ctx.analysed(ctor)
+    cc = CFG(ctor)
+    stores = [n for n in cc.nodes if n.kind == "stmt" and isinstance(n.ast, ast.Assign) and any(
+        isinstance(t, ast.Subscript) and source.src(t.value) == "self.data" for t in n.ast.targets)
+        and any(isinstance(c, ast.Call) and last_attr(c) in NORMALISERS for c in ast.walk(n.ast.value))]
+
+    def escaped_key_label(t: ast.AST) -> Optional[str]:
+        """edge label on which the key under consideration IS one of the escaped keys"""
+        cp = match.compare_parts(t)
+        if not cp:
+            return None
+        consts = {x.value for x in ast.walk(cp[2]) if isinstance(x, ast.Constant) and isinstance(x.value, str)} | \
+                 {x.value for x in ast.walk(cp[0]) if isinstance(x, ast.Constant) and isinstance(x.value, str)}
+        if not consts or not set(wk) <= consts:
+            return None
+        if isinstance(cp[1], (ast.Eq, ast.In)):
+            return "T"
+        if isinstance(cp[1], (ast.NotEq, ast.NotIn)):
+            return "F"
+        return None
+    esc_tests = match.test_nodes(cc, escaped_key_label)
+    for sn in stores:
+        okn = bool(esc_tests) and match.only_via_edges(cc, sn, [(t, match.other(lab)) for (t, lab) in esc_tests])
+        if isinstance(sn.ast.value, ast.IfExp):
+            lab = escaped_key_label(sn.ast.value.test)
+            if lab is not None:
+                kept = sn.ast.value.body if lab == "T" else sn.ast.value.orelse
+                okn = okn or not any(isinstance(c, ast.Call) and last_attr(c) in NORMALISERS for c in ast.walk(kept))
+        ctx.ob("C14.R5-escape-agreement", sn.ast, okn,
+               "values are normalised on reload only for keys that are not escaped (%s is kept as written)" % ", ".join(sorted(wk)) if okn else
+               "Status.__init__ normalises (%s) every value it is given, also the free text %s that statusFromFile has just un-escaped: "
+               "the trailing newline of a traceback and leading/trailing blanks are lost on reload - the value read back is not the value "
+               "written" % ("/".join(sorted({last_attr(c) for c in ast.walk(sn.ast.value) if isinstance(c, ast.Call) and last_attr(c) in NORMALISERS})),
+                            ", ".join(sorted(wk))),
+               construct="Status.__init__: normalised store <- key is not escaped")
+    # derived listings: a file written with raw values is parsed back without %-interpolation
+    outm = ctx.repo.module(OUTPUT)
+    ul = outm.func("OutputAgent.updateLogs")
+    confm = ctx.repo.module(CONF)
+    n_back = 0
+    for c in source.calls_in(ul):
+        if c.args and source.src(c.args[0]) == "self.outputFile" and last_attr(c) in {q.split(".")[-1] for q in confm.functions}:
+            callee = confm.functions.get(last_attr(c))
+            if callee is None:
+                continue
+            ctx.analysed(callee)
+            for k in source.calls_in(callee):
+                if (call_name(k) or "").split(".")[-1] in ("ConfigParser", "SafeConfigParser", "RawConfigParser"):
+                    n_back += 1
+                    raw = (call_name(k) or "").endswith("RawConfigParser") or any(
+                        kw.arg == "interpolation" and isinstance(kw.value, ast.Constant) and kw.value.value is None for kw in k.keywords)
+                    ctx.ob("C14.R5-escape-agreement", k, raw,
+                           "%s parses the listing it derives output.json from without %%-interpolation" % last_attr(c) if raw else
+                           "%s parses output.txt - written with raw values - with configparser's %%-interpolation: a key-output located at "
+                           "'energies-100%%.csv' raises InterpolationSyntaxError out of updateLogs() after output.txt was renamed into place, "
+                           "output.json stays at the previous version (and '%%(name)s' in a value is silently rewritten)" % last_attr(c),
+                           construct="%s: ConfigParser(interpolation=None)" % last_attr(c))
+    ctx.floor("C14.R5-escape-agreement", n_back, 1, "parsers that read output.txt back to derive output.json")
     # what is written is the escaped value (not the raw one)
     writes = [c for c in source.calls_in(w) if last_attr(c) == "write"]
     ctx.ob("C14.R5-escape-agreement", w, bool(writes), "writeToStream writes through stream.write", construct="stream.write present", trivial=True)
